@@ -13,6 +13,7 @@ import DvcData.Model.IndexSave
 import DvcData.Model.Staging
 import DvcData.Model.Fetch
 import DvcData.Model.StoreAdd
+import DvcData.Model.LinkRecord
 import DvcData.Model.State
 import DvcData.Model.Store
 import DvcData.Model.Checkout
@@ -414,6 +415,19 @@ def opFetchCounts (j : Lean.Json) : Except String Lean.Json := do
   let r := Fetch.fetch cache items
   pure (Lean.Json.mkObj [("fetched", r.fetched), ("failed", r.failed), ("cache", strArr r.cache),
     ("had_to_move", (Fetch.hadToMove cache items).length)])
+
+/-- the dictionary checkout tokenises for the link record, from its own bookkeeping, and the one a walk of the workspace gives -/
+def opLinkToken (j : Lean.Json) : Except String Lean.Json := do
+  let pairs (a : Lean.Json) : Except String (List (List Char × Nat)) := do
+    (← a.getArr?).toList.mapM fun e => do pure ((← (← e.getArrVal? 0).getStr?).toList, ← (← e.getArrVal? 1).getNat?)
+  let ws ← pairs (← j.getObjVal? "ws")
+  let updated ← pairs (← j.getObjVal? "updated")
+  let unchanged ← (← arr j "unchanged").toList.mapM fun e => do
+    let t : Option Nat := match e.getArrVal? 1 with | .ok (.num n) => some n.mantissa.toNat | _ => none
+    pure ((← (← e.getArrVal? 0).getStr?).toList, t)
+  let toJ (l : List (List Char × Nat)) : Lean.Json := Lean.Json.arr (l.map fun e => Lean.Json.arr #[.str (String.ofList e.1), .num e.2]).toArray
+  pure (Lean.Json.mkObj [("from_changes", toJ (LinkRecord.canon (LinkRecord.fromChanges (AList.lookup ws) updated unchanged))),
+    ("walk", toJ (LinkRecord.canon ws))])
 
 def optEntryOf (j : Lean.Json) : Except String (Option MetaInfo.Entry) :=
   match j with | .null => pure none | j => do pure (some (← entryOf j))
@@ -819,6 +833,7 @@ def dispatch (j : Json) : Except String Json := do
   | "staging" => opStaging j
   | "fetch_counts" => opFetchCounts j
   | "store_add" => opStoreAdd j
+  | "link_token" => opLinkToken j
   | "idx_checkout" => opIdxCheckout j
   | "state_history" => opStateHistory j
   | "store_history" => opStoreHistory j
